@@ -702,6 +702,7 @@ class Mirror:
     def __init__(self):
         self.nodes: Dict[Tuple[str, ...], str] = {(): "G"}
         self.meta: set = set()
+        self.freed: List[Tuple[str, ...]] = []   # paths that held an annotated node earlier (moved away / deleted)
 
     def groups(self):
         return [p for p, k in self.nodes.items() if k == "G"]
@@ -727,10 +728,16 @@ class Mirror:
         if p and p not in self.nodes:
             self.nodes[p] = kind
 
+    def free_again(self):
+        """Previously used paths that are free now and whose parent still is a group."""
+        return [p for p in self.freed if p not in self.nodes and self.nodes.get(p[:-1]) == "G"]
+
     def rm(self, p):
         p = tuple(p)
         if not p:
             return
+        if p in self.nodes and any(q[:len(p)] == p for (q, _s) in self.meta) and p not in self.freed:
+            self.freed.append(p)
         for q in [q for q in self.nodes if q[:len(p)] == p]:
             del self.nodes[q]
         self.meta = {(q, s) for (q, s) in self.meta if q[:len(p)] != p}
@@ -814,6 +821,11 @@ def gen_history(rng, nops: int, p_bnd: float = 0.06, p_reserved: float = 0.03) -
             base = list(rng.choice(groups))
             return base + [rng.choice(SEGS) for _ in range(1 if rng.random() < 0.7 else 2)]
 
+        def fresh_or_reused(p_reuse):
+            # a path where an annotated node lived earlier in this history (moved away or deleted)
+            again = mir.free_again()
+            return list(rng.choice(again)) if again and rng.random() < p_reuse else fresh()
+
         def some_existing():
             return rng.choice(existing) if existing and rng.random() < 0.94 else fresh()
 
@@ -835,7 +847,7 @@ def gen_history(rng, nops: int, p_bnd: float = 0.06, p_reserved: float = 0.03) -
         elif r < 0.04 + p_bnd and not ro:
             op = ["bnd"]
         elif r < 0.17:
-            t = fresh()
+            t = fresh_or_reused(0.3)
             if rng.random() < 0.45:
                 op = [rng.choice(["mkgrp", "mkgrp", "reqgrp"]), cwds, _spell(rng, cwd, t)]
                 upd = lambda: mir.mk(t, "G")  # noqa: E731
@@ -857,7 +869,7 @@ def gen_history(rng, nops: int, p_bnd: float = 0.06, p_reserved: float = 0.03) -
             op = ["del", cwds, _spell(rng, cwd, t)]
             upd = lambda: mir.rm(t)  # noqa: E731
         elif r < 0.35:
-            s, d = some_annotated(), fresh()
+            s, d = some_annotated(), fresh_or_reused(0.5)
             if d[:len(s)] == s:
                 continue
             op = ["move", cwds, _spell(rng, cwd, s), _spell(rng, cwd, d)]
@@ -865,7 +877,7 @@ def gen_history(rng, nops: int, p_bnd: float = 0.06, p_reserved: float = 0.03) -
         elif r < 0.44:
             if ro and not ro_acl:
                 continue        # HDF5 attempts the write of a copy on a read-only file descriptor
-            s, d = some_annotated(), fresh()
+            s, d = some_annotated(), fresh_or_reused(0.45)
             if d[:len(s)] == s:
                 continue
             wm = rng.random() < 0.35
@@ -881,6 +893,10 @@ def gen_history(rng, nops: int, p_bnd: float = 0.06, p_reserved: float = 0.03) -
                 continue
             s, dg = some_annotated(), list(rng.choice(nonroot))
             name = [rng.choice(SEGS)] if rng.random() < 0.7 else []
+            again = [q for q in mir.free_again() if len(q) >= 2]
+            if again and rng.random() < 0.4:
+                q = list(rng.choice(again))
+                dg, name = q[:-1], q[-1:]
             d = dg + (name if name else s[-1:])
             if d[:len(s)] == s:
                 continue
@@ -937,6 +953,122 @@ def gen_history(rng, nops: int, p_bnd: float = 0.06, p_reserved: float = 0.03) -
     return ops
 
 
+def _subject(rng_or_none, base: List[str], name: str, kind: str, depth: int, eps: List[str], labels=None) -> List[list]:
+    """Operations creating a dataset, or a group with metadata down to `depth` (1..3) levels below it,
+    at base/name; the same call re-creates the identical structure later."""
+    P = base + [name]
+    lab = labels or LABELS
+    if kind == "D":
+        return [["set", "/", absname(P), "i:1"]] + [["sattach", absname(P), ep, lab[i % len(lab)], True] for i, ep in enumerate(eps[:2])]
+    ops: List[list] = [["mkgrp", "/", absname(P + ["h", "i"][:max(0, depth - 1)])] if depth > 1 else ["mkgrp", "/", absname(P)]]
+    nodes = [P + ["d"], P + ["h", "e"], P + ["h", "i", "f"]][:depth]
+    for i, q in enumerate(nodes):
+        ops.append(["set", "/", absname(q), f"i:{i}"])
+    carriers = [P] + nodes + ([P + ["h"]] if depth > 1 else [])
+    for i, q in enumerate(carriers):
+        if i == 0 and len(eps) % 2 == 0:
+            continue            # sometimes the group itself stays bare
+        ops.append(["sattach", absname(q), eps[i % len(eps)], lab[i % len(lab)], True])
+    return ops
+
+
+def reuse_shapes(base: List[str], kind: str, depth: int, eps: List[str]) -> List[List[list]]:
+    """Histories in which a node with metadata REAPPEARS at a path that held one before."""
+    rel = lambda n: "/".join(base + [n])  # noqa: E731
+    pre: List[list] = [["mkgrp", "/", absname(base)]] if base else []
+    mk = lambda n: _subject(None, base, n, kind, depth, eps)  # noqa: E731
+    H: List[List[list]] = []
+    # away and back
+    H.append(pre + mk("x") + [["move", "/", rel("x"), rel("y")], ["move", "/", rel("y"), rel("x")], ["reopen", False, "file"],
+                              ["move", "/", rel("x"), rel("y")], ["del", "/", rel("y")]])
+    # a -> b -> c -> a -> b
+    H.append(pre + mk("x") + [["move", "/", rel("x"), rel("y")], ["move", "/", rel("y"), rel("A")], ["move", "/", rel("A"), rel("x")],
+                              ["bnd"], ["move", "/", rel("x"), rel("y")], ["copy", "/", rel("y"), rel("A"), False], ["del", "/", rel("y")]])
+    # a -> b, then copy b -> a with metadata; and once more onto the intermediate name
+    H.append(pre + mk("x") + [["move", "/", rel("x"), rel("y")], ["copy", "/", rel("y"), rel("x"), False],
+                              ["move", "/", rel("y"), rel("~t")], ["copy", "/", rel("x"), rel("y"), False], ["reopen", False, "file"],
+                              ["del", "/", rel("x")]])
+    # a -> b, copy b -> a WITHOUT metadata, attach afresh, copy with metadata elsewhere, move back over the old name
+    H.append(pre + mk("x") + [["move", "/", rel("x"), rel("y")], ["copy", "/", rel("y"), rel("x"), True],
+                              ["sattach", absname(base + ["x"]), eps[0], "2", True], ["del", "/", rel("x")],
+                              ["move", "/", rel("y"), rel("x")], ["copy", "/", rel("x"), rel("y"), False]])
+    # delete, re-create the same structure with the same schemas at the same path
+    H.append(pre + mk("x") + [["del", "/", rel("x")]] + mk("x") + [["move", "/", rel("x"), rel("y")]] + mk("x")
+             + [["del", "/", rel("y")], ["move", "/", rel("x"), rel("y")], ["move", "/", rel("y"), rel("x")]])
+    # swap two annotated nodes via a temporary name
+    H.append(pre + mk("x") + _subject(None, base, "y", kind, depth, list(reversed(eps)), ["2", "0", "1"])
+             + [["move", "/", rel("x"), rel("tmp")], ["move", "/", rel("y"), rel("x")], ["move", "/", rel("tmp"), rel("y")],
+                ["move", "/", rel("x"), rel("tmp")], ["move", "/", rel("y"), rel("x")], ["move", "/", rel("tmp"), rel("y")],
+                ["reopen", False, "file"]])
+    # copy into a group object under the name that was vacated
+    H.append(pre + [["mkgrp", "/", absname(base + ["o"])]] + _subject(None, base + ["o"], "x", kind, depth, eps)
+             + [["move", "/", rel("o/x"), rel("y")], ["copyinto", "/", rel("y"), absname(base + ["o"]), ["x"], False],
+                ["del", "/", rel("y")], ["move", "/", rel("o/x"), rel("y")], ["copyinto", "/", rel("y"), absname(base + ["o"]), ["x"], True]])
+    if kind == "G":
+        # the same inside the moved group: a child goes away and comes back while the parent stays
+        inner = "d" if depth == 1 else "h"
+        H.append(pre + mk("x") + [["move", "/" + rel("x"), inner, "q"], ["move", "/" + rel("x"), "q", inner],
+                                  ["move", "/", rel("x"), rel("y")], ["move", "/" + rel("y"), inner, "q"],
+                                  ["copy", "/", rel("y") + "/q", rel("y") + "/" + inner, False], ["move", "/", rel("y"), rel("x")]])
+    return H
+
+
+def gen_reuse_history(rng) -> List[list]:
+    """Random history over a handful of names in one group: an annotated dataset / group (metadata at
+    depth 1..3) is moved, copied (with and without metadata), deleted and re-created, always
+    preferring destinations that were occupied earlier in the same session."""
+    base = rng.choice([[], ["b"], ["a", "c"]])
+    kind = rng.choice(["D", "G", "G"])
+    depth = rng.randint(1, 3)
+    eps = rng.sample(GOOD_EPS[:4], rng.randint(2, 4))
+    names = ["x", "y", "A", "~t"]
+    rel = lambda n: "/".join(base + [n])  # noqa: E731
+    ops: List[list] = ([["mkgrp", "/", absname(base)]] if base else []) + _subject(None, base, "x", kind, depth, eps)
+    here = {"x"}            # names occupied by a (copy of the) subject
+    used = ["x"]            # names that were occupied at some time
+    for _ in range(rng.randint(3, 7)):
+        free_used = [n for n in used if n not in here]
+        free = [n for n in names if n not in here]
+        r = rng.random()
+        if not here:
+            n = rng.choice(free_used or names)
+            ops += _subject(None, base, n, kind, depth, eps)
+            here.add(n)
+            continue
+        s = rng.choice(sorted(here))
+        d = rng.choice(free_used) if free_used and rng.random() < 0.75 else (rng.choice(free) if free else None)
+        if r < 0.08:
+            ops.append(["reopen", False, "file"] if rng.random() < 0.6 else ["bnd"])
+        elif r < 0.50 and d:
+            ops.append(["move", "/", rel(s), rel(d)])
+            here.discard(s)
+            here.add(d)
+        elif r < 0.78 and d:
+            ops.append(["copy", "/", rel(s), rel(d), rng.random() < 0.25])
+            here.add(d)
+        elif r < 0.90:
+            ops.append(["del", "/", rel(s)])
+            here.discard(s)
+        elif d:
+            ops += _subject(None, base, d, kind, depth, eps)
+            here.add(d)
+        for n in here:
+            if n not in used:
+                used.append(n)
+    return ops
+
+
+def reuse_patterns() -> List[List[list]]:
+    aa, bb, cc, dd = (ep_of(s) for s in (S_AA, S_BB, S_CC, S_DD))
+    H: List[List[list]] = []
+    H += reuse_shapes([], "D", 1, [bb, dd])
+    H += reuse_shapes([], "G", 3, [aa, cc, bb])
+    H += reuse_shapes(["b"], "G", 1, [bb, aa])[:5]
+    H += reuse_shapes(["b"], "G", 2, [cc, dd, aa, bb])[2:]
+    H += reuse_shapes(["a", "c"], "D", 1, [cc, aa])[:4]
+    return H
+
+
 def pattern_histories() -> List[List[list]]:
     aa, bb, cc, dd, ff, pp, xx = (ep_of(s) for s in (S_AA, S_BB, S_CC, S_DD, S_FF, S_PP, S_XX))
     H: List[List[list]] = []
@@ -990,4 +1122,5 @@ def pattern_histories() -> List[List[list]]:
     H.append([["set", "/", "x", "i:1"], ["set", "/", "y", "i:2"], ["sattach", "/x", cc, "1", True], ["sattach", "/y", dd, "2", True],
               ["sattach", "/y", bb, "2", True], ["detach", "/x", cc], ["detach", "/y", bb], ["sattach", "/x", aa, "0", True],
               ["detach", "/y", dd], ["detach", "/x", aa]])
+    H += reuse_patterns()
     return H
